@@ -531,6 +531,49 @@ pub proof fn lemma_c05_v1_unknown(l: Seq<u8>, k: int)
 }
 
 // [props: C05]
+/// every proper prefix of a well-formed line - cut anywhere, also inside a multi-byte character of the text of an
+/// UNKNOWN line - has an incomplete verdict and is its own window; the line's only CR is the one of its final CRLF
+#[verifier::rlimit(60)]
+pub proof fn lemma_c05_v1_core(l: Seq<u8>, a: V1Addresses, k: int)
+    requires wf_line(l, a), 0 <= k < l.len()
+    ensures v1v_incomplete(header_verdict(l.subrange(0, k))),
+        v1_window(l.subrange(0, k)) =~= l.subrange(0, k),
+        k > 0 ==> l[0] == 80u8,
+        l.len() >= 2, first_index_of(l, 13u8) + 2 == l.len(), l[l.len() - 1] == 10u8,
+{
+    broadcast use crate::prelude::prelude_str_axioms;
+    broadcast use crate::prelude::prelude_utf8_axioms;
+    let w = l.subrange(0, k);
+    lemma_first_index_bounds(l, 13u8);
+    match a {
+        V1Addresses::Unknown => { lemma_c05_v1_unknown(l, k); lemma_unknown_bytes(l); },
+        V1Addresses::Tcp4(x) => {
+            let (fa, fb, fp, fq) = choose|a: Seq<u8>, b: Seq<u8>, p: Seq<u8>, q: Seq<u8>| #![auto]
+                l =~= tcp4_line(a, b, p, q)
+                && ipv4_text(a) == Some(x.source_address) && ipv4_text(b) == Some(x.destination_address)
+                && port_ok(p) && port_ok(q) && dec_value(p) == x.source_port && dec_value(q) == x.destination_port;
+            assert(l == tcp_line(b_tcp4(), fa, fb, fp, fq));
+            lemma_c05_v1_tcp(true, fa, fb, fp, fq, k);
+            lemma_tcp_line_window(l, true, fa, fb, fp, fq);
+            assert(l[l.len() - 1] == 10u8) by { assert(l =~= tcp4_line(fa, fb, fp, fq)); assert(b_crlf()[1] == 10u8); }
+        },
+        V1Addresses::Tcp6(x) => {
+            let (fa, fb, fp, fq) = choose|a: Seq<u8>, b: Seq<u8>, p: Seq<u8>, q: Seq<u8>| #![auto]
+                l =~= tcp6_line(a, b, p, q)
+                && ipv6_text(a) == Some(x.source_address) && ipv6_text(b) == Some(x.destination_address)
+                && port_ok(p) && port_ok(q) && dec_value(p) == x.source_port && dec_value(q) == x.destination_port;
+            assert(l == tcp_line(b_tcp6(), fa, fb, fp, fq));
+            lemma_c05_v1_tcp(false, fa, fb, fp, fq, k);
+            lemma_tcp_line_window(l, false, fa, fb, fp, fq);
+            assert(l[l.len() - 1] == 10u8) by { assert(l =~= tcp6_line(fa, fb, fp, fq)); assert(b_crlf()[1] == 10u8); }
+        },
+    }
+    // the prefix is its own window: it has no CR except possibly as its last byte, and fewer than 107 bytes
+    lemma_first_index_bounds(w, 13u8);
+    assert(v1_window(w) =~= w);
+}
+
+// [props: C05]
 /// C05 for the text entry point: every proper prefix of a well-formed line (US-ASCII, so every
 /// prefix is valid UTF-8) is reported incomplete
 #[verifier::rlimit(60)]
@@ -543,27 +586,6 @@ pub proof fn lemma_c05_v1(l: Seq<u8>, a: V1Addresses, k: int)
     broadcast use crate::prelude::prelude_str_axioms;
     broadcast use crate::prelude::prelude_utf8_axioms;
     let w = l.subrange(0, k);
-    match a {
-        V1Addresses::Unknown => { lemma_c05_v1_unknown(l, k); },
-        V1Addresses::Tcp4(x) => {
-            let (fa, fb, fp, fq) = choose|a: Seq<u8>, b: Seq<u8>, p: Seq<u8>, q: Seq<u8>| #![auto]
-                l =~= tcp4_line(a, b, p, q)
-                && ipv4_text(a) == Some(x.source_address) && ipv4_text(b) == Some(x.destination_address)
-                && port_ok(p) && port_ok(q) && dec_value(p) == x.source_port && dec_value(q) == x.destination_port;
-            assert(l == tcp_line(b_tcp4(), fa, fb, fp, fq));
-            lemma_c05_v1_tcp(true, fa, fb, fp, fq, k);
-        },
-        V1Addresses::Tcp6(x) => {
-            let (fa, fb, fp, fq) = choose|a: Seq<u8>, b: Seq<u8>, p: Seq<u8>, q: Seq<u8>| #![auto]
-                l =~= tcp6_line(a, b, p, q)
-                && ipv6_text(a) == Some(x.source_address) && ipv6_text(b) == Some(x.destination_address)
-                && port_ok(p) && port_ok(q) && dec_value(p) == x.source_port && dec_value(q) == x.destination_port;
-            assert(l == tcp_line(b_tcp6(), fa, fb, fp, fq));
-            lemma_c05_v1_tcp(false, fa, fb, fp, fq, k);
-        },
-    }
-    // the prefix is its own window: it has no CR except possibly as its last byte, and fewer than 107 bytes
-    lemma_first_index_bounds(w, 13u8);
-    assert(v1_window(w) =~= w);
+    lemma_c05_v1_core(l, a, k);
     assert(str_cut_ok(w, w.len() as int));
 }
